@@ -64,7 +64,9 @@ class Report:
                         facts)
         k = ob.key()
         old = self.obls.get(k)
-        rank = {'ok': 0, 'unknown': 1, 'violation': 2}
+        # a site typed in one analysed context and not in another counts as
+        # decided there; a violation in any context wins
+        rank = {'unknown': 0, 'ok': 1, 'violation': 2}
         if old is None or rank[status] > rank[old.status]:
             self.obls[k] = ob
         return ob
